@@ -510,6 +510,8 @@ def run(ctx):
                 r2 = impl2[0]
             obs = {k: r2.get(k) for k in ("raised", "pix", "lex_ok", "rawlen", "rsize", "untouched", "size_kept", "pix_error")}
             first_bad = first_ill_formed(r2.get("items", []))
+            if r2.get("oscs"):
+                obs["oscs(size=,decoded,kind,w,h)"] = [[o["keys"][0], o["declen"], o["kind"], o["w"], o["h"]] for o in r2["oscs"][:4]]
             failures.append({
                 "signature": signature(small),
                 "what": f"render does not satisfy the framing/pixel specification (code {k2[0]}): {describe(small)}; observed {json.dumps(obs)}"
